@@ -64,26 +64,93 @@ func drainArg(in ssa.Instruction) ssa.Value {
 	return cc.Args[1]
 }
 
-// replyCode: if in is a call of (*Conn).writeResponse / writeError /
-// protocolError returns (true, code, isConst).
+type fwdInfo struct {
+	codeIdx, enhIdx int
+}
+
+var fwdCache = map[*ssa.Function]*fwdInfo{}
+
+// replyForwarder: g is (*Conn).writeResponse itself or a package function that
+// hands one of its own parameters to a reply writer as the reply code (and
+// possibly another one as the enhanced code): writeError, protocolError, or a
+// helper introduced by a refactoring.
+func replyForwarder(g *ssa.Function) *fwdInfo {
+	if g == nil || !inSmtp(g) {
+		return nil
+	}
+	if fi, ok := fwdCache[g]; ok {
+		return fi
+	}
+	fwdCache[g] = nil
+	if qualFuncName(g) == "(*Conn).writeResponse" {
+		fwdCache[g] = &fwdInfo{1, 2}
+		return fwdCache[g]
+	}
+	var res *fwdInfo
+	allInstrs(g, func(in ssa.Instruction) {
+		cc := callCommon(in)
+		if cc == nil {
+			return
+		}
+		callee := staticCallee(cc)
+		if callee == nil || callee == g {
+			return
+		}
+		fi := replyForwarder(callee)
+		if fi == nil || fi.codeIdx >= len(cc.Args) {
+			return
+		}
+		p, ok := cc.Args[fi.codeIdx].(*ssa.Parameter)
+		if !ok {
+			return
+		}
+		r := &fwdInfo{codeIdx: -1, enhIdx: -1}
+		for i, q := range g.Params {
+			if q == p {
+				r.codeIdx = i
+			}
+			if fi.enhIdx < len(cc.Args) {
+				if q2, ok := cc.Args[fi.enhIdx].(*ssa.Parameter); ok && q2 == q {
+					r.enhIdx = i
+				}
+			}
+		}
+		if r.codeIdx >= 0 && res == nil {
+			res = r
+		}
+	})
+	fwdCache[g] = res
+	return res
+}
+
+// replyCall: if in calls a reply writer/forwarder returns its name, the reply
+// code when constant, and the call's enhanced-code argument (nil if the
+// forwarder supplies its own).
 func replyCall(in ssa.Instruction) (fn string, code int64, isConst bool, ok bool) {
 	cc := callCommon(in)
 	if cc == nil {
 		return
 	}
 	f := staticCallee(cc)
-	if f == nil {
+	fi := replyForwarder(f)
+	if fi == nil || fi.codeIdx >= len(cc.Args) {
 		return
 	}
-	n := qualFuncName(f)
-	switch n {
-	case "(*Conn).writeResponse", "(*Conn).writeError", "(*Conn).protocolError":
-		if len(cc.Args) >= 2 {
-			code, isConst = constInt(cc.Args[1])
-		}
-		return n, code, isConst, true
+	code, isConst = constInt(cc.Args[fi.codeIdx])
+	return qualFuncName(f), code, isConst, true
+}
+
+// replyEnhArg returns the enhanced-code argument of a reply call (nil if none).
+func replyEnhArg(in ssa.Instruction) ssa.Value {
+	cc := callCommon(in)
+	if cc == nil {
+		return nil
 	}
-	return
+	fi := replyForwarder(staticCallee(cc))
+	if fi == nil || fi.enhIdx < 0 || fi.enhIdx >= len(cc.Args) {
+		return nil
+	}
+	return cc.Args[fi.enhIdx]
 }
 
 func (e *StdEvents) Label(in ssa.Instruction) []string {
@@ -181,11 +248,11 @@ func (e *StdEvents) Label(in ssa.Instruction) []string {
 	if n == "(*textproto.Conn).Cmd" {
 		ls = append(ls, "wire-cmd")
 	}
-	if n == "(*Conn).writeResponse" {
+	if fi := replyForwarder(f); fi != nil && fi.codeIdx < len(cc.Args) {
 		ls = append(ls, "reply")
-		if code, ok := constInt(cc.Args[1]); ok {
+		if code, ok := constInt(cc.Args[fi.codeIdx]); ok {
 			ls = append(ls, fmt.Sprintf("reply:%d", code), fmt.Sprintf("reply:%dxx", code/100))
-		} else {
+		} else if n == "(*Conn).writeResponse" {
 			ls = append(ls, "reply:dyn")
 		}
 	}
